@@ -79,6 +79,7 @@ def family(tier, seed):
         G('complete4', {s: [n for n in range(4) if n != s] for s in range(4)}, [3]),
         G('revise', {0: [1, 2], 1: [3], 2: [1], 3: []}, [3]),           # node 1 reached twice with different cost
         G('parallel-edges', {0: [1, 1], 1: [2, 2], 2: []}, [2]),
+        G('hopeless-revise', {0: [2, 1], 1: [1], 2: [1], 3: []}, [3]),   # unreachable goal; the dead-end cycle at 1 is reached twice, the second time more cheaply
     ]
     if tier == 'thorough':
         rnd = _random.Random(seed)
@@ -89,21 +90,36 @@ def family(tier, seed):
     return F
 
 
-def build(g, kind):
+def hopeless(g):
+    """nodes from which no goal can be reached: their EXACT heuristic is infinite"""
+    ok = set(g.goals)
+    changed = True
+    while changed:
+        changed = False
+        for s in g.nodes:
+            if s not in ok and any(n in ok for n in g.edges.get(s, [])):
+                ok.add(s)
+                changed = True
+    return {s for s in g.nodes if s not in ok}
+
+
+def build(g, kind, hmode='sym'):
     """the problem object handed to the planners, in the requested representation"""
     cost = {}
     for s in g.nodes:
         for ai, n in enumerate(g.edges.get(s, [])):
             cost[(s, ai)] = S.real('c_%s_%s' % (s, ai), 0, None)
     h = {}
+    inf_at = hopeless(g) if hmode == 'inf-at-hopeless' else set()       # the exact cost-to-go of a state that cannot reach a goal is +inf (consistent)
     for s in g.nodes:
-        h[s] = 0 if s in g.goals else S.real('h_%s' % s, 0, None)
+        h[s] = 0 if s in g.goals else (math.inf if s in inf_at else S.real('h_%s' % s, 0, None))
     # consistency: h(s) <= c(s,a) + h(ns)
     for s in g.nodes:
-        if s in g.goals:
-            continue
+        if s in g.goals or s in inf_at:
+            continue         # every successor of a hopeless state is hopeless: inf <= c + inf
         for ai, n in enumerate(g.edges.get(s, [])):
-            S.assume(S.le(h[s], cost[(s, ai)] + h[n]))
+            if n not in inf_at:
+                S.assume(S.le(h[s], cost[(s, ai)] + h[n]))
     actions = lambda s: tuple(range(len(g.edges.get(s, []))))
     nxt = lambda s, a: g.edges[s][a]
     reward = lambda s, a, ns: -cost[(s, a)]
@@ -154,8 +170,8 @@ def check_path(g, res, cost, prefix, want_cost):
     return tot
 
 
-def h_astar(g, kind, tie, shuffle):
-    prob, cost, h = build(g, kind)
+def h_astar(g, kind, tie, shuffle, hmode='sym'):
+    prob, cost, h = build(g, kind, hmode)
     uses = []
     with facades(uses):
         planner = se.AStarSearch(heuristic_value=lambda s: -h[s], seed=1 if (tie == 'random' or shuffle) else None,
@@ -266,6 +282,10 @@ def tasks(tier, seed):
                     mf = (g.name == 'diamond' and tie == 'lifo' and not sh)
                     T.append(Task('astar/%s/%s/%s/%s' % (g.name, tie, 'shuffle' if sh else 'ordered', kd), h_astar, (g, kd, tie, sh), tier='B',
                                   max_paths=6000, deadline_s=400, expect_fail=('mustfail:cost-is-zero',)))
+        if hopeless(g):
+            for tie in ('lifo', 'fifo', 'random'):
+                T.append(Task('astar/%s/%s/ordered/dsp/exact-infinite-heuristic-at-hopeless-states' % (g.name, tie), h_astar, (g, 'dsp', tie, False, 'inf-at-hopeless'), tier='B',
+                              max_paths=6000, deadline_s=400, expect_fail=('mustfail:cost-is-zero',)))
         for sh in (False, True):
             for kd in (kinds if tier == 'thorough' else [kinds[(gi + sh) % len(kinds)], 'dictdist']):
                 T.append(Task('bfs/%s/%s/%s' % (g.name, 'shuffle' if sh else 'ordered', kd), h_bfs, (g, kd, sh), tier='B'))
